@@ -65,6 +65,7 @@ Section DrainStep.
     - reflexivity.
     - apply e_cn_same. intros a Ha. cbn [cn_ok].
       rewrite (obs_cmt_observe p accts univ s' bs 0 a Ha), (DP_cm _ _ _ _ _ _ DP a Ha). apply N.eqb_refl.
+    - reflexivity.
     - apply e_lost_ok. intros t Ht H1 H2.
       apply (prev_held p accts univ w s I S) in H1. destruct H1 as [_ H1].
       destruct (C0 _ _ H1) as [_ Ha].
@@ -102,6 +103,14 @@ Section DrainStep.
       rewrite (S_arr _ _ _ _ _ S t E). symmetry. apply (DP_arr _ _ _ _ _ _ DP). exact Hge.
     - exact (DP_arr_nd _ _ _ _ _ _ DP).
     - intro a. cbn [st_led]. pose proof (DP_cn _ _ _ _ _ _ DP a). pose proof (S_led _ _ _ _ _ S a). lia.
+    - cbn [st_live]. intros h Hh. apply filter_In in Hh. destruct Hh as [Hh Hs].
+      pose proof (S_live _ _ _ _ _ S h Hh) as Hk.
+      destruct (alookup tx_eqb h (hashmap s)) as [sl|] eqn:El; [|apply (alookup_None tx_eqb tx_eqb_spec) in El; contradiction].
+      destruct (I_hm_wf _ _ _ I h sl El) as [Esl _].
+      apply (slot_held_observe p accts univ s' bs 0 _ I' C) in Hs.
+      destruct (item_at s' (slot_of h)) as [t|] eqn:Et; [|congruence].
+      apply (DP_item _ _ _ _ _ _ DP) in Et. destruct Et as [_ Hge].
+      eapply (alookup_Some_key tx_eqb tx_eqb_spec). apply (DP_keep _ _ _ _ _ _ DP h sl El). rewrite Esl. exact Hge.
   Qed.
 End DrainStep.
 
@@ -180,6 +189,7 @@ Section AllHistories.
     - intros t E. discriminate.
     - constructor.
     - intro a. unfold get_cn. cbn. lia.
+    - intros h [].
     - exists [], 0. unfold obs0, Mempool.observe.
       assert (Hf : pool_full p empty_state = false).
       { unfold pool_full, pool_size, len. cbn. destruct (p_pool p =? 0) eqn:E; lia. }
